@@ -85,9 +85,27 @@ func (x *Exec) generate(fn *ssa.Function) {
 	fr.names = map[string]ssa.Value{}
 	// vacuity guard: the pre-condition must be satisfiable
 	x.obligeCover(fr, st, "cover", "requires", fn.Pos())
+	var exitPCs []*Term
+	defer func() {
+		// vacuity guard: some path through the body must reach an exit
+		if x.aborted == "" {
+			ob := &Obligation{Name: fmt.Sprintf("%s#cover@exit", funcName(fn)), Kind: "cover", Func: funcName(fn), Pos: x.posOf(fn.Pos()), Cover: true, seq: len(x.oblOrder)}
+			for _, pc := range exitPCs {
+				ob.Cases = append(ob.Cases, Case{PC: pc, Goal: True})
+			}
+			if len(ob.Cases) == 0 {
+				ob.Cases = append(ob.Cases, Case{PC: False, Goal: True})
+			}
+			x.obls["cover@exit"] = ob
+			x.oblOrder = append(x.oblOrder, ob)
+		}
+	}()
 	x.execFunc(fr, st, func(st2 *State, res Val, panicked bool) {
 		if !x.countPath() {
 			return
+		}
+		if len(exitPCs) < 64 {
+			exitPCs = append(exitPCs, st2.PC())
 		}
 		if panicked {
 			if c == nil || !c.MayPanic {
